@@ -24,12 +24,13 @@ import (
 // The oracle is a wire-level ledger: it only knows what the replies said.
 
 type dhcpCfg struct {
-	Net   int    `json:"net"`           // index into dNets
-	Mode  int    `json:"mode"`          // 1 primary, 2 secondary, 3 secondary-nice
-	File  string `json:"file"`          // lease file ("" = no persistence)
-	Quiet bool   `json:"quiet"`         // unused
-	DNS   int    `json:"dns,omitempty"` // configured DNS server: 0 = 8.8.4.4, 1 = 9.9.9.9
-	NF    int    `json:"nf,omitempty"`  // netfilter prefix: 0 = the net's own, 1 = same gateway address, one bit longer mask
+	Net   int    `json:"net"`                   // index into dNets
+	Mode  int    `json:"mode"`                  // 1 primary, 2 secondary, 3 secondary-nice
+	File  string `json:"file"`                  // lease file ("" = no persistence)
+	Quiet bool   `json:"quiet"`                 // unused
+	DNS   int    `json:"dns,omitempty"`         // configured DNS server: 0 = 8.8.4.4, 1 = 9.9.9.9
+	NF    int    `json:"nf,omitempty"`          // netfilter prefix: 0 = the net's own, 1 = same gateway address, one bit longer mask
+	Pre   []int  `json:"precaptured,omitempty"` // MAC indices the session already reports as captured when the handler is constructed
 }
 
 func (c dhcpCfg) dns() netip.Addr {
@@ -195,6 +196,9 @@ type dhcpEnv struct {
 
 func newDHCPEnv(c dhcpCfg) (*dhcpEnv, error) {
 	s, conn := newSession(c.nic())
+	for _, m := range c.Pre { // the application restores its capture list before it starts the DHCP handler
+		s.Capture(hwOf(hMACs[m%len(hMACs)]))
+	}
 	h, err := dhcp4.Config{Mode: dhcp4.Mode(c.Mode), NetfilterIP: c.netfilter(), DNSServer: c.dns(), LeaseFilename: c.File}.New(s)
 	if err != nil {
 		closeSession(s)
